@@ -84,6 +84,17 @@ def kani_playback_test(engine_dir, engine, harness, features, timeout):
     return (nm.group(1) if nm else None, src)
 
 
+def own_playback_test(harness, vals):
+    """Concrete-playback unit test built from OUR CBMC run's trace (the query that failed, with its function-pointer
+    restrictions and bounds), in the format Kani's own `--concrete-playback=print` emits."""
+    fn = harness.split("::")[-1]
+    name = "kani_concrete_playback_" + fn + "_" + hashlib.sha1(json.dumps(vals).encode()).hexdigest()[:12]
+    body = "".join("        vec![" + ", ".join(str(b) for b in v) + "],\n" for v in vals)
+    src = ("#[test]\nfn " + name + "() {\n    let concrete_vals: Vec<Vec<u8>> = vec![\n" + body + "    ];\n"
+           "    kani::concrete_playback_run(concrete_vals, " + fn + ");\n}")
+    return name, src
+
+
 def module_key_of(harness):
     # "react::utils::verif_h::foo" -> "react__utils"
     parts = harness.split("::")
@@ -139,6 +150,7 @@ def confirm(pid, tier, o, r, ENGINES, work, cfg, known):
                failed_checks=r.get("failed"), functions=o["functions"], bounds=o["bounds"], tier=tier)
     # counterexample values from CBMC's trace
     info = r.get("_info")
+    tr = {}
     if info:
         tr = kp.verify(o["harness"], info, cfg["timeout"], cfg["mem_gb"], work, want_trace=True)
         rec["counterexample"] = tr.get("counterexample")
@@ -161,8 +173,20 @@ def confirm(pid, tier, o, r, ENGINES, work, cfg, known):
             rec["witness_runs"].append(dict(note="witness crate does not build against the current /repo"))
     # (b) native concrete playback of the solver's assignment (skipped when the public API already reproduced it)
     e = ENGINES[o["engine"]]
-    pb = None if reproduced and not os.environ.get("VERIF_ALWAYS_PLAYBACK") else kani_playback_test(e["dir"], o["engine"], o["harness"], cfg["features"], cfg["timeout"] + 300)
-    if pb and pb[0]:
+    pb = None
+    if o.get("no_native_playback"):
+        # the harness's #[kani::stub]s change behaviour (a recorder stands for a callee); stubs do not exist natively, so a
+        # native run of the harness would not execute what the solver executed: only the public-API witness can confirm
+        rec["playback"] = dict(skipped="harness depends on behaviour-changing stubs; confirmation is the public-API witness only")
+    elif reproduced and not os.environ.get("VERIF_ALWAYS_PLAYBACK"):
+        pb = None
+    elif tr.get("playback_vals") is not None and tr.get("verdict") == "FAIL":
+        pb = own_playback_test(o["harness"], tr["playback_vals"])
+    else:
+        pb = kani_playback_test(e["dir"], o["engine"], o["harness"], cfg["features"], cfg["timeout"] + 300)
+    if o.get("no_native_playback"):
+        pass
+    elif pb and pb[0]:
         rec["playback_test"] = pb[1]
         rec["playback"] = run_playback(e["dir"], o["engine"], o["harness"], pb[0], pb[1], cfg["features"])
         if rec["playback"].get("reproduced"):
